@@ -376,6 +376,21 @@ def f18():
     return ok, f"orders addressed to the zero-capacity sector: alt {a}, noalt {b}"
 
 
+@trigger("F21", ["C01"])
+def f21():
+    """event-free run, base class, alpha_base = 2, an infinite inventory for an input that a zero-output industry does not use"""
+    import json
+    from pathlib import Path
+    sc = json.loads((Path(__file__).resolve().parent.parent / "findings" / "F21_scenario.json").read_text())
+    sc["T"] = 40
+    sim = run_loop(sc)
+    p = sim.production_realised.to_numpy()
+    x0 = sim.model.X_0
+    with np.errstate(all="ignore"):
+        dev = float(np.nanmax(np.abs(p - x0) / np.where(x0 > 0, x0, np.inf)))
+    return dev <= 1e-9, f"largest relative deviation of production from equilibrium over 40 steps: {dev:.3g}"
+
+
 def run_all(props=None, only=None):
     res = {}
     for fid, t in TRIGGERS.items():
